@@ -19,8 +19,6 @@ from __future__ import annotations
 
 import ast
 import copy
-from functools import lru_cache
-
 from hypothesis import strategies as st
 
 # ----------------------------------------------------------------------------- vocabulary
@@ -130,12 +128,26 @@ def _parts(parts, lit):
     return out
 
 
+_EXPAND_CODE = False
+
+
 def to_ast(m, lit: str = "L"):
     """Build the ast node of a model. `lit` = expression text of the module's Literal spelling.
     Every node gets `_m` = its model dict (used by the steering pass)."""
     node = _to_ast(m, lit)
     node._m = m
     return node
+
+
+def to_ast_expanded(m, lit: str = "L"):
+    """Like to_ast, with every valid string annotation replaced by the code it holds (the tree Griffe builds when it
+    parses them): parenthesisation sites can sit at the seam."""
+    global _EXPAND_CODE
+    _EXPAND_CODE = True
+    try:
+        return to_ast(m, lit)
+    finally:
+        _EXPAND_CODE = False
 
 
 def _to_ast(m, lit):
@@ -146,6 +158,8 @@ def _to_ast(m, lit):
     if t == "Const":
         return ast.Constant(_const_value(m))
     if t == "Code":
+        if _EXPAND_CODE and m.get("e") is not None:
+            return to_ast(m["e"], lit)
         return ast.Constant(code_text(m))
     if t == "Attribute":
         return ast.Attribute(to_ast(m["v"], lit), m["attr"], L)
@@ -225,12 +239,14 @@ def model_depth(m) -> int:
 # ----------------------------------------------------------------------------- parenthesis spy
 class _ParenSpy(ast._Unparser):
     """CPython's unparser, recording every place where it *decides* to emit parentheses:
-    (parent node, field name, child node). Also records the `1 .real` space (int receiver of an attribute)."""
+    (parent node, field name, child node). Also records the `1 .real` space (int receiver of an attribute).
+    f-string fields are written by nested unparser instances, so stack and sink are shared (class level)."""
 
-    def __init__(self):
-        super().__init__()
-        self.stack: list = []
-        self.sites: list = []
+    stack: list = []
+    sites: list = []
+
+    def __init__(self, **kwargs):
+        super().__init__(**kwargs)
 
     def traverse(self, node):
         if isinstance(node, list):
@@ -241,16 +257,21 @@ class _ParenSpy(ast._Unparser):
         finally:
             self.stack.pop()
 
+    def _site(self, child):
+        parent = None
+        for n in reversed(self.stack):
+            if n is not child:
+                parent = n
+                break
+        self.sites.append((parent, _field_of(parent, child), child))
+
     def delimit_if(self, start, end, condition):
         if condition and start == "(" and self.stack:
-            child = self.stack[-1]
-            parent = self.stack[-2] if len(self.stack) > 1 else None
-            self.sites.append((parent, _field_of(parent, child), child))
+            self._site(self.stack[-1])
         return super().delimit_if(start, end, condition)
 
     def visit_GeneratorExp(self, node):
-        parent = self.stack[-2] if len(self.stack) > 1 else None
-        self.sites.append((parent, _field_of(parent, node), node))
+        self._site(node)
         return super().visit_GeneratorExp(node)
 
     def visit_Attribute(self, node):
@@ -271,12 +292,16 @@ def _field_of(parent, child) -> str:
 
 
 def paren_sites(tree) -> list:
-    """[(parent, field, child)] where CPython's unparser parenthesises `child` when writing `tree`.
-    The root of an expression is written at the lowest precedence, so it is reported only when it is a
-    generator expression, a named expression, a yield or a tuple-free node that always carries parentheses."""
-    spy = _ParenSpy()
-    spy.visit(tree)
-    return spy.sites
+    """[(parent, field, child)] where CPython's unparser parenthesises `child` when writing `tree` (parent None:
+    the root itself, which happens for generator expressions only, the root being written at the lowest precedence)."""
+    _ParenSpy.stack = []
+    _ParenSpy.sites = sites = []
+    try:
+        _ParenSpy().visit(tree)
+    finally:
+        _ParenSpy.stack = []
+        _ParenSpy.sites = []
+    return sites
 
 
 def site_label(parent, field, child) -> str:
@@ -289,248 +314,369 @@ def site_label(parent, field, child) -> str:
     return f"{cls(parent) if parent is not None else 'root'}.{field}<-{cls(child)}"
 
 
-# ----------------------------------------------------------------------------- strategies
-_S = st.sampled_from
-
-
-def _name():
-    return st.builds(lambda i: {"t": "Name", "id": i}, _S(NAMES))
-
-
-_TEXT = st.text(alphabet="ab '\"\\\n{}é\t%", max_size=4)
-_SAFE_TEXT = st.text(alphabet="ab c", max_size=3)
-
-
-def _const(sw):
-    nums = [("int", "0"), ("int", "7"), ("int", "1000000000000000000000"), ("float", "1.5"), ("float", "0.1"), ("float", "1e22"),
-            ("float", "1e-07"), ("complex", "1j"), ("complex", "2.5j")]  # fmt: skip
-    if not sw.get("no-nonfinite"):
-        nums += [("float", "1e400"), ("complex", "1e400j")]
-    return st.one_of(
-        _S(nums).map(lambda kv: {"t": "Const", "k": kv[0], "v": kv[1]}),
-        _TEXT.map(lambda s: {"t": "Const", "k": "str", "v": s}),
-        _S([{"t": "Const", "k": "None"}, {"t": "Const", "k": "bool", "v": True}, {"t": "Const", "k": "bool", "v": False},
-            {"t": "Const", "k": "Ellipsis"}]),  # fmt: skip
-        st.text(alphabet="ab'\"\\\x00\xff\n", max_size=3).map(lambda s: {"t": "Const", "k": "bytes", "v": s}),
-    )
-
-
+# ----------------------------------------------------------------------------- builder driven by a choice sequence
+# A case is built deterministically from a list of small integers (drawn by Hypothesis): every decision consumes one
+# element (modulo the number of options, option 0 being the simplest); an exhausted list answers 0 everywhere, so
+# every list is a valid case, shorter/smaller lists are simpler cases, and generation costs one list draw.
+NUMS = (("int", "0"), ("int", "7"), ("float", "1.5"), ("complex", "1j"), ("int", "1000000000000000000000"), ("float", "0.1"),
+        ("float", "1e22"), ("float", "1e-07"), ("complex", "2.5j"))  # fmt: skip
+NONFINITE = (("float", "1e400"), ("complex", "1e400j"))
+TEXT_ALPHABET = "ab '\"\\\n{}é\t%"
+SAFE_ALPHABET = "ab c"
+BYTES_ALPHABET = "ab'\"\\\x00\xff\n"
 BAD_CODE = ("a b", "1 +", "", "a.", "[", "def", "a:b", "lambda", "x y z", "not", "*a", "a = b", "yield")
+SPECS = (">10", ".2f", "x", "^")
+
+# (weight, kind) of compound nodes in a general expression
+EXPR_KINDS = (
+    (6, "BinOp"), (4, "Attribute"), (4, "Call"), (4, "Subscript"), (3, "UnaryOp"), (3, "BoolOp"), (3, "Compare"),
+    (3, "IfExp"), (3, "Lambda"), (2, "List"), (3, "Tuple"), (2, "Set"), (3, "Dict"), (2, "ListComp"), (1, "SetComp"),
+    (3, "GenExp"), (2, "DictComp"), (2, "NamedExpr"), (4, "JoinedStr"), (1, "Code"), (1, "Literal"),
+)  # fmt: skip
+ANN_KINDS = ((5, "Generic"), (3, "Union"), (5, "Code"), (4, "Literal"), (2, "Callable"), (3, "Expr"))
 
 
-class Gen:
-    """Depth-indexed expression strategies. `sw` = feature switches (names starting with "no-" remove a
-    node class or a sub-shape from the generator)."""
+class Builder:
+    """Deterministic model builder. `sw` = feature switches: "no-<Kind>" removes a node class, other names select a
+    restricted sub-shape (see the uses of self.sw)."""
 
-    def __init__(self, sw: dict | None = None):
+    def __init__(self, data, sw: dict | None = None):
+        self.data = list(data)
+        self.i = 0
         self.sw = dict(sw or {})
-        self._cache: dict = {}
 
-    # -- public
-    def expr(self, depth: int, lam: bool = False):
-        """General expression of nesting depth <= depth (lam: inside a lambda body, so yield is legal)."""
-        key = ("E", depth, lam)
-        if key not in self._cache:
-            self._cache[key] = self._expr(depth, lam)
-        return self._cache[key]
+    # -- choices
+    def pick(self, n: int) -> int:
+        v = self.data[self.i] if self.i < len(self.data) else 0
+        self.i += 1
+        return v % n if n > 0 else 0
 
-    def annotation(self, depth: int):
-        """Annotation-flavoured expression: names, attributes, subscripts, unions, lists, string annotations,
-        Literal[...], with general expressions mixed in."""
-        key = ("T", depth)
-        if key not in self._cache:
-            self._cache[key] = self._annotation(depth)
-        return self._cache[key]
+    def flag(self, pct: int = 50) -> bool:
+        """True with about pct % (False when the data is exhausted)."""
+        return self.pick(100) >= 100 - pct
 
-    def code_string(self, depth: int):
-        good = self.annotation(max(depth - 1, 0)).map(lambda e: {"t": "Code", "e": e})
-        general = self.expr(max(depth - 1, 0)).map(lambda e: {"t": "Code", "e": e})
-        bad = _S(BAD_CODE).map(lambda s: {"t": "Code", "bad": s})
-        return st.one_of(good, good, general, bad)
+    def of(self, seq):
+        return seq[self.pick(len(seq))]
 
-    # -- internals
-    def _leaf(self):
-        return st.one_of(_name(), _const(self.sw))
+    def weighted(self, table):
+        table = [(w, k) for w, k in table if not self.sw.get("no-" + k)]
+        total = sum(w for w, _ in table)
+        x = self.pick(total)
+        for w, k in table:
+            if x < w:
+                return k
+            x -= w
+        return table[0][1]
 
-    def _on(self, kind: str) -> bool:
-        return not self.sw.get("no-" + kind)
+    def count(self, lo: int, hi: int) -> int:
+        return lo + self.pick(hi - lo + 1)
 
-    def _expr(self, d, lam):
-        leaf = self._leaf()
+    def text(self, alphabet: str, max_size: int) -> str:
+        return "".join(alphabet[self.pick(len(alphabet))] for _ in range(self.pick(max_size + 1)))
+
+    # -- leaves
+    def name(self):
+        return {"t": "Name", "id": self.of(NAMES)}
+
+    def const(self):
+        k = self.pick(8)
+        if k <= 2:
+            nums = NUMS if self.sw.get("no-nonfinite") else NUMS + NONFINITE
+            kind, v = self.of(nums)
+            return {"t": "Const", "k": kind, "v": v}
+        if k <= 4:
+            return {"t": "Const", "k": "str", "v": self.text(SAFE_ALPHABET if self.sw.get("safe-strings") else TEXT_ALPHABET, 4)}
+        if k == 5:
+            return copy.deepcopy(self.of(({"t": "Const", "k": "None"}, {"t": "Const", "k": "bool", "v": True},
+                                          {"t": "Const", "k": "bool", "v": False}, {"t": "Const", "k": "Ellipsis"})))  # fmt: skip
+        if k == 6:
+            return {"t": "Const", "k": "bytes", "v": self.text(BYTES_ALPHABET, 3)}
+        return {"t": "Const", "k": "int", "v": "1"}
+
+    def leaf(self):
+        return self.name() if self.pick(3) != 2 else self.const()
+
+    # -- general expressions
+    def expr(self, d: int, lam: bool = False, code: bool = False, compound: bool = False):
+        """Expression of nesting depth <= d. lam: inside a lambda body (yield is legal); code: inside a string
+        annotation (no further string-annotation nesting); compound: do not return a leaf if d allows."""
         if d <= 0:
-            return leaf
-        sub = self.expr(d - 1, lam)
-        kinds = []
-
-        def add(kind, strat):
-            if self._on(kind):
-                kinds.append(strat)
-
-        add("Attribute", st.builds(lambda v, a: {"t": "Attribute", "v": v, "attr": a}, sub, _S(ATTRS)))
-        add("BinOp", st.builds(lambda o, l, r: {"t": "BinOp", "op": o, "l": l, "r": r}, _S(sorted(BINOPS)), sub, sub))
-        add("BoolOp", st.builds(lambda o, vs: {"t": "BoolOp", "op": o, "vs": vs}, _S(sorted(BOOLOPS)), st.lists(sub, min_size=2, max_size=3)))
-        add("UnaryOp", st.builds(lambda o, v: {"t": "UnaryOp", "op": o, "v": v}, _S(sorted(UNARYOPS)), sub))
-        add(
-            "Compare",
-            st.integers(1, 2).flatmap(
-                lambda n: st.builds(
-                    lambda l, ops, cs: {"t": "Compare", "l": l, "ops": ops, "cs": cs},
-                    sub,
-                    st.lists(_S(sorted(CMPOPS)), min_size=n, max_size=n),
-                    st.lists(sub, min_size=n, max_size=n),
-                )
-            ),
-        )
-        add("IfExp", st.builds(lambda t, b, o: {"t": "IfExp", "test": t, "body": b, "orelse": o}, sub, sub, sub))
-        add("Call", self._call(d, lam))
-        add("Lambda", self._lambda(d))
-        star = self._starred_or(sub)
-        add("List", st.lists(star, max_size=3).map(lambda e: {"t": "List", "elts": e}))
-        add("Tuple", st.lists(star, max_size=3).map(lambda e: {"t": "Tuple", "elts": e}))
-        add("Set", st.lists(star, min_size=1, max_size=3).map(lambda e: {"t": "Set", "elts": e}))
-        dkey = sub if self.sw.get("no-dict-unpack") else st.one_of(sub, sub, st.none())
-        add("Dict", st.lists(st.tuples(dkey, sub).map(list), max_size=3).map(lambda i: {"t": "Dict", "items": i}))
-        gens = self._gens(d, lam)
-        add("ListComp", st.builds(lambda e, g: {"t": "ListComp", "elt": e, "gens": g}, sub, gens))
-        add("SetComp", st.builds(lambda e, g: {"t": "SetComp", "elt": e, "gens": g}, sub, gens))
-        add("GenExp", st.builds(lambda e, g: {"t": "GenExp", "elt": e, "gens": g}, sub, gens))
-        add("DictComp", st.builds(lambda k, v, g: {"t": "DictComp", "k": k, "v": v, "gens": g}, sub, sub, gens))
-        add("Subscript", st.builds(lambda v, s: {"t": "Subscript", "v": v, "s": s}, sub, self._index(d, lam)))
-        add("NamedExpr", st.builds(lambda t, v: {"t": "NamedExpr", "tg": t, "v": v}, _S(("w", "a")), sub))
-        add("JoinedStr", self._fstring(d, lam))
+            return self.leaf()
+        if not compound and not self.flag(70):
+            return self.leaf()
+        table = list(EXPR_KINDS)
         if lam:
-            add("Yield", st.one_of(st.none(), sub).map(lambda v: {"t": "Yield", "v": v}))
-            add("YieldFrom", sub.map(lambda v: {"t": "YieldFrom", "v": v}))
-        # rarely: string annotations and Literal[...] outside annotation positions (must never be parsed there)
-        rare = st.one_of(self.code_string(d), self._literal(d))
-        compound = st.one_of(*kinds) if kinds else leaf
-        return st.one_of(leaf, compound, compound, compound, rare)
+            table += [(2, "Yield"), (1, "YieldFrom")]
+        if code:
+            table = [(w, k) for w, k in table if k != "Code"]
+        kind = self.weighted(table)
+        return getattr(self, "k_" + kind)(d, lam, code)
 
-    def _starred_or(self, sub):
-        if not self._on("Starred"):
-            return sub
-        return st.one_of(sub, sub, sub, sub.map(lambda v: {"t": "Starred", "v": v}))
+    def sub(self, d, lam, code):
+        return self.expr(d - 1, lam, code)
 
-    def _call(self, d, lam):
-        sub = self.expr(d - 1, lam)
-        arg = self._starred_or(sub)
-        kwname = st.one_of(_S(KWNAMES), _S(KWNAMES), st.none()) if self._on("call-doublestar") else _S(KWNAMES)
-        general = st.builds(
-            lambda f, a, k: {"t": "Call", "f": f, "args": a, "kws": k},
-            sub,
-            st.lists(arg, max_size=3),
-            st.lists(st.tuples(kwname, sub).map(list), max_size=2),
-        )
-        if not self._on("GenExp"):
-            return general
-        # a generator expression as the sole argument is the one place where it needs no parentheses of its own
-        sole = st.builds(
-            lambda f, e, g: {"t": "Call", "f": f, "args": [{"t": "GenExp", "elt": e, "gens": g}], "kws": []},
-            sub,
-            sub,
-            self._gens(d, lam),
-        )
-        return st.one_of(general, general, general, sole)
+    def starred_or(self, d, lam, code):
+        e = self.sub(d, lam, code)
+        if not self.sw.get("no-Starred") and self.flag(20):
+            return {"t": "Starred", "v": e}
+        return e
 
-    def _lambda(self, d):
-        body = self.expr(d - 1, True)
-        dflt = self.expr(max(d - 2, 0), False)
+    def k_Attribute(self, d, lam, code):
+        return {"t": "Attribute", "v": self.sub(d, lam, code), "attr": self.of(ATTRS)}
 
-        def build(npo, npk, va, nko, vk, defs, kdefs, body):
-            return {"t": "Lambda", "npo": npo, "npk": npk, "va": va, "nko": nko, "vk": vk,
-                    "defs": defs[: npo + npk], "kdefs": kdefs[:nko], "body": body}  # fmt: skip
+    def k_BinOp(self, d, lam, code):
+        return {"t": "BinOp", "op": self.of(sorted(BINOPS)), "l": self.sub(d, lam, code), "r": self.sub(d, lam, code)}
 
-        return st.builds(
-            build,
-            st.integers(0, 2), st.integers(0, 2), st.booleans(), st.integers(0, 2), st.booleans(),
-            st.lists(dflt, max_size=2), st.lists(st.one_of(st.none(), dflt), max_size=2), body,
-        )  # fmt: skip
+    def k_BoolOp(self, d, lam, code):
+        return {"t": "BoolOp", "op": self.of(sorted(BOOLOPS)), "vs": [self.sub(d, lam, code) for _ in range(self.count(2, 3))]}
 
-    def _gens(self, d, lam):
-        sub = self.expr(d - 1, lam)
-        target = st.one_of(
-            _S(("x", "y")).map(lambda i: {"t": "Name", "id": i}),
-            _S(("x", "y")).map(lambda i: {"t": "Name", "id": i}),
-            st.just({"t": "Tuple", "elts": [{"t": "Name", "id": "x"}, {"t": "Name", "id": "y"}]}),
-        )
-        is_async = st.booleans() if self._on("async-comp") else st.just(False)
-        gen = st.builds(
-            lambda tg, it, ifs, a: {"tg": tg, "it": it, "ifs": ifs, "async": a},
-            target, sub, st.lists(sub, max_size=2), is_async,
-        )  # fmt: skip
-        return st.lists(gen, min_size=1, max_size=2)
+    def k_UnaryOp(self, d, lam, code):
+        return {"t": "UnaryOp", "op": self.of(sorted(UNARYOPS)), "v": self.sub(d, lam, code)}
 
-    def _index(self, d, lam):
-        sub = self.expr(d - 1, lam)
-        opt = st.one_of(st.none(), sub)
-        sl = st.builds(lambda lo, up, s: {"t": "Slice", "lo": lo, "up": up, "st": s}, opt, opt, opt)
-        if not self._on("Slice"):
-            sl = sub
-        elt = st.one_of(sub, sub, sl, sub.map(lambda v: {"t": "Starred", "v": v})) if self._on("Starred") else st.one_of(sub, sl)
-        tup = st.lists(elt, max_size=3).map(lambda e: {"t": "Tuple", "elts": e})
-        return st.one_of(sub, sub, sl, tup)
+    def k_Compare(self, d, lam, code):
+        n = self.count(1, 2)
+        return {"t": "Compare", "l": self.sub(d, lam, code), "ops": [self.of(sorted(CMPOPS)) for _ in range(n)],
+                "cs": [self.sub(d, lam, code) for _ in range(n)]}  # fmt: skip
 
-    def _fstring(self, d, lam):
-        sub = self.expr(d - 1, lam)
-        if self.sw.get("fstring-plain"):
-            # while the f-string finding is listed: literal text without quotes/braces/backslashes, plain {name} fields
-            field = _name().map(lambda v: {"t": "FV", "v": v, "conv": -1, "spec": None})
-            return st.lists(st.one_of(_SAFE_TEXT, field), max_size=4).map(lambda p: {"t": "JoinedStr", "parts": p})
-        spec_part = st.one_of(
-            st.sampled_from([">10", ".2f", "x", "{{"]),
-            _name().map(lambda v: {"t": "FV", "v": v, "conv": -1, "spec": None}),
-        )
-        field = st.builds(
-            lambda v, c, s: {"t": "FV", "v": v, "conv": c, "spec": s},
-            sub,
-            _S((-1, -1, -1, 115, 114, 97)),
-            st.one_of(st.none(), st.none(), st.lists(spec_part, min_size=0, max_size=2)),
-        )
-        return st.lists(st.one_of(_TEXT, field, field), max_size=4).map(lambda p: {"t": "JoinedStr", "parts": p})
+    def k_IfExp(self, d, lam, code):
+        return {"t": "IfExp", "test": self.sub(d, lam, code), "body": self.sub(d, lam, code), "orelse": self.sub(d, lam, code)}
 
-    def _literal(self, d):
-        item = st.one_of(
-            _TEXT.map(lambda s: {"t": "Const", "k": "str", "v": s}),
-            self.code_string(min(d, 1)),
-            _S(NAMES).map(lambda i: {"t": "Code", "e": {"t": "Name", "id": i}}),
-            _const(self.sw),
-        )
-        inner = st.one_of(item, item, st.lists(item, min_size=1, max_size=3).map(lambda e: {"t": "Tuple", "elts": e}))
-        if d >= 2:
+    def k_Call(self, d, lam, code):
+        f = self.sub(d, lam, code)
+        if not self.sw.get("no-GenExp") and self.flag(20):
+            # a generator expression as the sole argument: the one place where it needs no parentheses of its own
+            return {"t": "Call", "f": f, "args": [self.k_GenExp(d, lam, code)], "kws": []}
+        args = [self.starred_or(d, lam, code) for _ in range(self.count(0, 3))]
+        kws = []
+        for _ in range(self.count(0, 2)):
+            name = None if (not self.sw.get("no-call-doublestar") and self.flag(30)) else self.of(KWNAMES)
+            kws.append([name, self.sub(d, lam, code)])
+        return {"t": "Call", "f": f, "args": args, "kws": kws}
+
+    def k_Lambda(self, d, lam, code):
+        npo, npk, va, nko, vk = self.count(0, 2), self.count(0, 2), self.flag(40), self.count(0, 2), self.flag(30)
+        defs = [self.expr(max(d - 2, 0), False, code) for _ in range(self.count(0, min(2, npo + npk)))]
+        kdefs = [self.expr(max(d - 2, 0), False, code) if self.flag(40) else None for _ in range(nko)]
+        return {"t": "Lambda", "npo": npo, "npk": npk, "va": va, "nko": nko, "vk": vk, "defs": defs, "kdefs": kdefs,
+                "body": self.expr(d - 1, True, code)}  # fmt: skip
+
+    def elts(self, d, lam, code, lo):
+        return [self.starred_or(d, lam, code) for _ in range(self.count(lo, 3))]
+
+    def k_List(self, d, lam, code):
+        return {"t": "List", "elts": self.elts(d, lam, code, 0)}
+
+    def k_Tuple(self, d, lam, code):
+        return {"t": "Tuple", "elts": self.elts(d, lam, code, 0)}
+
+    def k_Set(self, d, lam, code):
+        return {"t": "Set", "elts": self.elts(d, lam, code, 1)}
+
+    def k_Dict(self, d, lam, code):
+        items = []
+        for _ in range(self.count(0, 3)):
+            unpack = not self.sw.get("no-dict-unpack") and self.flag(30)
+            items.append([None if unpack else self.sub(d, lam, code), self.sub(d, lam, code)])
+        return {"t": "Dict", "items": items}
+
+    def gens(self, d, lam, code):
+        out = []
+        for _ in range(self.count(1, 2)):
+            tg = self.of(({"t": "Name", "id": "x"}, {"t": "Name", "id": "y"},
+                          {"t": "Tuple", "elts": [{"t": "Name", "id": "x"}, {"t": "Name", "id": "y"}]}))  # fmt: skip
+            out.append({"tg": copy.deepcopy(tg), "it": self.sub(d, lam, code), "ifs": [self.sub(d, lam, code) for _ in range(self.count(0, 2))],
+                        "async": (not self.sw.get("no-async-comp")) and self.flag(15)})  # fmt: skip
+        return out
+
+    def k_ListComp(self, d, lam, code):
+        return {"t": "ListComp", "elt": self.sub(d, lam, code), "gens": self.gens(d, lam, code)}
+
+    def k_SetComp(self, d, lam, code):
+        return {"t": "SetComp", "elt": self.sub(d, lam, code), "gens": self.gens(d, lam, code)}
+
+    def k_GenExp(self, d, lam, code):
+        return {"t": "GenExp", "elt": self.sub(d, lam, code), "gens": self.gens(d, lam, code)}
+
+    def k_DictComp(self, d, lam, code):
+        return {"t": "DictComp", "k": self.sub(d, lam, code), "v": self.sub(d, lam, code), "gens": self.gens(d, lam, code)}
+
+    def slice_(self, d, lam, code):
+        def opt():
+            return self.sub(d, lam, code) if self.flag(50) else None
+
+        return {"t": "Slice", "lo": opt(), "up": opt(), "st": opt()}
+
+    def index(self, d, lam, code):
+        k = self.pick(6)
+        if k <= 2:
+            return self.sub(d, lam, code)
+        if k == 3 and not self.sw.get("no-Slice"):
+            return self.slice_(d, lam, code)
+        elts = []
+        for _ in range(self.count(0, 3)):
+            j = self.pick(5)
+            if j == 3 and not self.sw.get("no-Slice"):
+                elts.append(self.slice_(d, lam, code))
+            elif j == 4 and not self.sw.get("no-Starred"):
+                elts.append({"t": "Starred", "v": self.sub(d, lam, code)})
+            else:
+                elts.append(self.sub(d, lam, code))
+        return {"t": "Tuple", "elts": elts}
+
+    def k_Subscript(self, d, lam, code):
+        return {"t": "Subscript", "v": self.sub(d, lam, code), "s": self.index(d, lam, code)}
+
+    def k_NamedExpr(self, d, lam, code):
+        return {"t": "NamedExpr", "tg": self.of(("w", "a")), "v": self.sub(d, lam, code)}
+
+    def k_JoinedStr(self, d, lam, code):
+        parts: list = []
+        plain = bool(self.sw.get("fstring-plain"))
+        for _ in range(self.count(0, 4)):
+            if self.pick(3) == 0:
+                parts.append(self.text(SAFE_ALPHABET if plain or self.sw.get("safe-strings") else TEXT_ALPHABET, 4))
+            elif plain:
+                # while the f-string finding is listed: plain {name} fields only
+                parts.append({"t": "FV", "v": self.name(), "conv": -1, "spec": None})
+            else:
+                spec = None
+                conv = self.of((-1, -1, -1, 115, 114, 97))
+                if self.flag(30):
+                    spec = [self.of(SPECS) if self.pick(2) == 0 else {"t": "FV", "v": self.name(), "conv": -1, "spec": None}
+                            for _ in range(self.count(0, 2))]  # fmt: skip
+                parts.append({"t": "FV", "v": self.sub(d, lam, code), "conv": conv, "spec": spec})
+        return {"t": "JoinedStr", "parts": parts}
+
+    def k_Yield(self, d, lam, code):
+        return {"t": "Yield", "v": self.sub(d, lam, code) if self.flag(60) else None}
+
+    def k_YieldFrom(self, d, lam, code):
+        return {"t": "YieldFrom", "v": self.sub(d, lam, code)}
+
+    # -- string annotations and Literal
+    def k_Code(self, d, lam, code):
+        k = self.pick(8)
+        if k == 7:
+            return {"t": "Code", "bad": self.of(BAD_CODE)}
+        if k <= 3:
+            return {"t": "Code", "e": self.annotation(max(d - 1, 0), code=True)}
+        if k <= 5:
+            return {"t": "Code", "e": self.expr(max(d - 1, 0), False, True)}
+        return {"t": "Code", "e": self.name()}
+
+    def literal_item(self, d):
+        k = self.pick(6)
+        if k <= 1:
+            return {"t": "Const", "k": "str", "v": self.text(SAFE_ALPHABET if self.sw.get("safe-strings") else TEXT_ALPHABET, 4)}
+        if k <= 3:
+            return {"t": "Code", "e": self.name()} if k == 2 else self.k_Code(min(d, 2), False, True)
+        return self.const()
+
+    def k_Literal(self, d, lam, code):
+        def items(lo):
+            return [self.literal_item(d) for _ in range(self.count(lo, 3))]
+
+        k = self.pick(5)
+        if k <= 1:
+            s = self.literal_item(d)
+        elif k == 2:
+            s = {"t": "Tuple", "elts": items(1)}
+        else:
             # strings nested deeper under Literal[...]: still never parsed
-            nested = st.builds(
-                lambda v, s: {"t": "Subscript", "v": v, "s": s},
-                _name(),
-                st.one_of(item, st.lists(item, min_size=1, max_size=2).map(lambda e: {"t": "Tuple", "elts": e})),
-            )
-            inner = st.one_of(inner, inner, nested, st.tuples(item, nested).map(lambda e: {"t": "Tuple", "elts": list(e)}))
-        return inner.map(lambda s: {"t": "Literal", "s": s})
+            nested = {"t": "Subscript", "v": self.name(), "s": self.literal_item(d) if k == 3 else {"t": "Tuple", "elts": items(1)}}
+            s = nested if self.flag(50) else {"t": "Tuple", "elts": [self.literal_item(d), nested]}
+        return {"t": "Literal", "s": s}
 
-    def _annotation(self, d):
-        name = _name()
-        dotted = st.builds(lambda v, a: {"t": "Attribute", "v": v, "attr": a}, name, _S(ATTRS))
-        base = st.one_of(name, dotted)
+    def annotation(self, d: int, code: bool = False):
+        """Annotation-flavoured expression: names, dotted names, generics, unions, Callable-like lists, string
+        annotations, Literal[...], with general expressions mixed in."""
+        def base():
+            n = self.name()
+            return {"t": "Attribute", "v": n, "attr": self.of(ATTRS)} if self.flag(25) else n
+
         if d <= 0:
-            return st.one_of(base, _S(NAMES).map(lambda i: {"t": "Code", "e": {"t": "Name", "id": i}}), _const(self.sw))
-        sub = self.annotation(d - 1)
-        args = st.one_of(
-            sub,
-            st.lists(sub, min_size=1, max_size=3).map(lambda e: {"t": "Tuple", "elts": e}),
-            # Callable[[A, "B"], C]
-            st.builds(lambda ps, r: {"t": "Tuple", "elts": [{"t": "List", "elts": ps}, r]}, st.lists(sub, max_size=2), sub),
-        )
-        generic = st.builds(lambda v, s: {"t": "Subscript", "v": v, "s": s}, base, args)
-        union = st.builds(lambda l, r: {"t": "BinOp", "op": "BitOr", "l": l, "r": r}, sub, sub)
-        return st.one_of(
-            base, generic, generic, union, self.code_string(d), self.code_string(d), self._literal(d), self._literal(d),
-            self.expr(d),
-        )  # fmt: skip
+            k = self.pick(4)
+            return base() if k <= 1 else ({"t": "Code", "e": self.name()} if k == 2 and not code else self.const())
+        table = [(w, k) for w, k in ANN_KINDS if not (code and k == "Code")]
+        kind = self.weighted(table)
+        if kind == "Generic":
+            n = self.count(1, 3)
+            args = [self.annotation(d - 1, code) for _ in range(n)]
+            return {"t": "Subscript", "v": base(), "s": args[0] if n == 1 and self.flag(70) else {"t": "Tuple", "elts": args}}
+        if kind == "Union":
+            return {"t": "BinOp", "op": "BitOr", "l": self.annotation(d - 1, code), "r": self.annotation(d - 1, code)}
+        if kind == "Callable":
+            params = {"t": "List", "elts": [self.annotation(d - 1, code) for _ in range(self.count(0, 2))]}
+            return {"t": "Subscript", "v": base(), "s": {"t": "Tuple", "elts": [params, self.annotation(d - 1, code)]}}
+        if kind == "Code":
+            return self.k_Code(d, False, code)
+        if kind == "Literal":
+            return self.k_Literal(d, False, code)
+        return self.expr(d, False, code, compound=True)
+
+
+def choice_lists(min_size: int = 16, max_size: int = 160):
+    return st.lists(st.integers(0, 255), min_size=min_size, max_size=max_size)
 
 
 # ----------------------------------------------------------------------------- steering (construction, not filtering)
+PLACEHOLDER = {"t": "Name", "id": "c"}
+SELF_PARENTHESISED = (ast.NamedExpr, ast.Tuple)  # Griffe writes these with their own parentheses
+
+
 def replace_model(m: dict, new: dict) -> None:
     m.clear()
     m.update(copy.deepcopy(new))
 
 
-PLACEHOLDER = {"t": "Name", "id": "c"}
+def is_sole_genexp_arg(parent, child) -> bool:
+    return isinstance(parent, ast.Call) and len(parent.args) == 1 and parent.args[0] is child and not parent.keywords and isinstance(child, ast.GeneratorExp)
+
+
+def needs_parens_sites(tree) -> list:
+    """Sites where the text needs parentheses that the operand does not bring itself."""
+    out = []
+    for parent, field, child in paren_sites(tree):
+        if isinstance(child, SELF_PARENTHESISED) or is_sole_genexp_arg(parent, child):
+            continue
+        if isinstance(child, ast.Constant):
+            continue  # the `1 .real` site, see int_receiver_sites
+        out.append((parent, field, child))
+    return out
+
+
+def int_receiver_sites(tree) -> list:
+    return [(p, f, c) for p, f, c in paren_sites(tree) if isinstance(c, ast.Constant)]
+
+
+def steer(model: dict, lit: str, sw: dict) -> dict:
+    """Rewrite, in place, the shapes that are switched off in `sw` into permitted ones (operand -> plain name).
+    Returns {switch: number of rewrites}. Node-class switches ("no-X") are honoured by the Builder itself."""
+    counts: dict = {}
+    if not (sw.get("no-operand-parens") or sw.get("no-int-receiver")):
+        return counts
+    tree = to_ast_expanded(model, lit)
+    if sw.get("no-operand-parens"):
+        for _parent, _field, child in needs_parens_sites(tree):
+            m = getattr(child, "_m", None)
+            if m is not None and m is not model:
+                replace_model(m, PLACEHOLDER)
+                counts["no-operand-parens"] = counts.get("no-operand-parens", 0) + 1
+    if sw.get("no-int-receiver"):
+        for _parent, _field, child in int_receiver_sites(tree):
+            m = getattr(child, "_m", None)
+            if m is not None:
+                replace_model(m, PLACEHOLDER)
+                counts["no-int-receiver"] = counts.get("no-int-receiver", 0) + 1
+    if sw.get("no-operand-parens"):
+        # a bare generator expression at the root (of the expression or of a string annotation that is the whole
+        # annotation): keep it, as the sole argument of a call
+        root = model
+        while root["t"] == "Code" and root.get("e") is not None:
+            root = root["e"]
+        if root["t"] == "GenExp":
+            inner = dict(root)
+            root.clear()
+            root.update({"t": "Call", "f": copy.deepcopy(PLACEHOLDER), "args": [inner], "kws": []})
+            counts["no-operand-parens"] = counts.get("no-operand-parens", 0) + 1
+    return counts
